@@ -103,7 +103,50 @@ M = [
 ]
 
 
+# Behaviour-preserving refactorings: every check must stay silent on these (false-alarm regression corpus).
+BENIGN = [
+ ("b01_sha1_file_names", CO, [("return hashlib.md5(string.encode(), usedforsecurity=False).hexdigest()",
+                               "return hashlib.sha1(string.encode(), usedforsecurity=False).hexdigest()")]),
+ ("b02_mkstemp_temporaries_minimal_enlargement", CO, [
+     ("        temporary_filepath = f\"{cache_miss.filepath}.{uuid.uuid4().hex}.part\"\n",
+      "        import tempfile\n        _fd, temporary_filepath = tempfile.mkstemp(\n            dir=os.path.dirname(cache_miss.filepath), prefix=\"dl-\", suffix=\".tmp\"\n        )\n        os.close(_fd)\n"),
+     ("            self.config.max_size_bytes = size_of_requested_data + MEGABYTE", "            self.config.max_size_bytes = size_of_requested_data + 1")]),
+ ("b03_thread_pool_executor", CO, [
+     ("        with ThreadPool(processes=MAXIMUM_NUMBER_OF_WORKERS) as pool:\n            output = list(\n                tqdm(\n                    pool.imap(_worker, cache_misses, chunksize=5),",
+      "        from concurrent.futures import ThreadPoolExecutor\n\n        with ThreadPoolExecutor(max_workers=MAXIMUM_NUMBER_OF_WORKERS) as pool:\n            output = list(\n                tqdm(\n                    pool.map(_worker, cache_misses),")]),
+ ("b04_touch_everything_returned_and_constructor_size_wins", CO, [
+     ("            if _hash not in downloaded and self._is_in_cache(_hash):\n                self._get_from_cache(_hash)\n",
+      "            if self._is_in_cache(_hash):\n                self._get_from_cache(_hash)\n"),
+     ("        if self.config_exists():\n            self.load_config()\n        else:\n            self._write_config()\n",
+      "        # the constructor arguments win over a persisted configuration (and replace it)\n        self._write_config()\n")]),
+]
+
+
+def write_benign():
+    out = os.path.join(os.path.dirname(OUT), "benign")
+    os.makedirs(out, exist_ok=True)
+    for f in os.listdir(out):
+        if f.endswith(".patch"):
+            os.remove(os.path.join(out, f))
+    bad = 0
+    for name, rel, edits in BENIGN:
+        src = open(os.path.join(REPO, rel)).read()
+        mut = src
+        for old, new in edits:
+            if mut.count(old) != 1:
+                print("BENIGN SPEC ERROR %s: pattern occurs %d times: %r" % (name, mut.count(old), old[:50]))
+                bad += 1
+                continue
+            mut = mut.replace(old, new)
+        diff = "".join(difflib.unified_diff(src.splitlines(True), mut.splitlines(True), "a/" + rel, "b/" + rel))
+        with open(os.path.join(out, name + ".patch"), "w") as f:
+            f.write(diff)
+    print("%d benign variants written, %d spec errors" % (len(BENIGN), bad))
+    return bad
+
+
 def main():
+    write_benign()
     os.makedirs(OUT, exist_ok=True)
     for f in os.listdir(OUT):
         if f.endswith(".patch"):
